@@ -188,6 +188,13 @@ def goPackageAlias (path : String) : String :=
   | [] => "pkg"
   | c :: _ => if Mangle.isAsciiDigit c then String.ofList ('_' :: al) else String.ofList al
 
+/-- `go_import_alias`: the import binds the qualifier explicitly when it is not the last path segment
+    (`gopkg.in/yaml.v3` is used as `yaml_v3`); `"-"` = no alias, as dumped by `godump.rs` -/
+def goImportAlias (path : String) : String :=
+  let last := String.ofList (((Mangle.splitOn '/' path.toList).getLast?).getD path.toList)
+  let al := goPackageAlias path
+  if al == last then "-" else al
+
 /-! ## types (`goast::tast_ty_to_go_type`) -/
 
 mutual
@@ -1014,7 +1021,8 @@ end
 def collectFn (rt : RT) (f : AFn) : RT :=
   collectA (collectType (collectTypes rt (f.params.map (·.2))) f.ret) f.body
 
-def collectRuntimeTypes (file : AFile) : RT := file.foldl collectFn {}
+/-- the part of `collect_runtime_types` that walks the functions -/
+def collectFnsTypes (file : AFile) : RT := file.foldl collectFn {}
 
 /-! ## `collect_dyn_requirements`, `gen_dyn_type_definitions`, `gen_dyn_helper_fns` -/
 
@@ -1191,6 +1199,20 @@ def okTypeDefinition (env : Env) : Bool :=
     strContains d.name "TParam" || d.variants.any (fun v => v.2.any isParamTy) ||
       d.variants.all fun v => okTys v.2)
 
+/-- `struct_def_is_emitted` / `enum_def_is_emitted`: the definitions `gen_type_definition` emits -/
+def structEmitted (d : StructDef) : Bool :=
+  !(strContains d.name "TParam" || !d.generics.isEmpty || d.fields.any (fun f => isParamTy f.2))
+def enumEmitted (d : EnumDef) : Bool :=
+  !(strContains d.name "TParam" || d.variants.any (fun v => v.2.any isParamTy))
+
+/-- `collect_runtime_types`: the functions first, then the field types of every emitted struct and the payload
+    types of every emitted enum (a tuple / Ref / array type that occurs only inside a type definition still needs
+    its runtime declaration) -/
+def collectRuntimeTypes (env : Env) (file : AFile) : RT :=
+  let rt := collectFnsTypes file
+  let rt := env.structs.foldl (fun rt d => if structEmitted d then collectTypes rt (d.fields.map (·.2)) else rt) rt
+  env.enums.foldl (fun rt d => if enumEmitted d then d.variants.foldl (fun rt v => collectTypes rt v.2) rt else rt) rt
+
 /-! ## `go_file` -/
 
 /-- the import specs added for `extern "go"` functions and types: package paths not imported yet,
@@ -1224,13 +1246,13 @@ def tupleStructs : List Ty → List GItem
 /-- everything `go_file` builds before it calls `eliminate_dead_vars`; the second component is the
     `Gensym` counter afterwards and the "no panic" flag -/
 def goFilePreSt (env : Env) (file : AFile) (n : Nat) : GFile × St :=
-  let rt := collectRuntimeTypes file
+  let rt := collectRuntimeTypes env file
   let base := makeRuntime ++ arrayRuntime rt.arrays ++ refRuntime rt.refs
   let withImports :=
     if env.externFns.isEmpty && env.externTys.isEmpty then base
     else
       let extra := extraImportPaths env (existingImports base)
-      if extra.isEmpty then base else addImports (extra.map fun p => ("-", p)) base
+      if extra.isEmpty then base else addImports (extra.map fun p => (goImportAlias p, p)) base
   let req := collectDynRequirements file
   let fns := compileFns env { n := n, ok := true } file
   let ok := fns.2.ok && okArrayRuntime rt.arrays && okRefRuntime rt.refs && rt.tuples.all okTy &&
